@@ -242,6 +242,8 @@ func checkC15(c *Ctx, r *Report) {
 	r.rule("C15.R4", "file shape: header, then per record header + exactly the payload", 1)
 	r.rule("C15.R6", "every buffer an encoder assembles its octets in is empty when the first octet is written (fresh, or emptied by a Reset that dominates every write)", 3)
 	r.rule("C15.R5", "the file on disk is replaced by exactly the encoded octets (truncating write)", 1)
+	r.rule("C15.R8", "no packed member loses bits to a left shift computed in an 8- or 16-bit type", 2)
+	r.rule("C15.R9", "the named values of the header enumerations (closure reason, release identifier, record format, TS number) are the numbers TS 32.297 assigns (exhaustive table)", 40)
 	r.rule("C15.R7", "the encoders write the members of the object they are given: no member of the receiver is assigned or taken from elsewhere", 3)
 
 	l := loadLayouts(c)
@@ -297,6 +299,8 @@ func checkC15(c *Ctx, r *Report) {
 	fileReplaced(c, r, "C15.R5")
 	buffersStartEmpty(c, r, "C15.R6", l.hdrFn, l.recFn, l.fileFn)
 	encodersWriteWhatGiven(c, r, "C15.R7", l.hdrFn, l.recFn, l.fileFn)
+	c15NarrowShifts(c, r, "C15.R8", l.hdrFn, l.recFn, l.fileFn)
+	c15EnumValues(c, r, "C15.R9")
 }
 
 func c15Order(r *Report, key string, segs []seg, c *Ctx, f *ssa.Function) {
